@@ -234,10 +234,10 @@ func c07Chain(np int, useBranch bool) {
 	}
 }
 
-func VerifC07Direct() { c07Chain(0, false) }
-func VerifC07Pass1()  { c07Chain(1, false) }
-func VerifC07Pass2()  { c07Chain(2, false) }
-func VerifC07Branch() { c07Chain(0, true) }
+func VerifC07Direct()     { c07Chain(0, false) }
+func VerifC07Pass1()      { c07Chain(1, false) }
+func VerifC07Pass2()      { c07Chain(2, false) }
+func VerifC07Branch()     { c07Chain(0, true) }
 func VerifC07BranchPass() { c07Chain(1, true) }
 
 // a node with an output key (declared output map[string]any) and an any-typed node both feed a pass-through
